@@ -114,6 +114,10 @@ func recvCases() []recvCase {
 	for _, v := range valid {
 		out = append(out, recvCase{"valid", v})
 	}
+	// a frame whose fragment is itself a link-layer packet (with and without an inner fragment), and one nested twice
+	for _, inner := range [][]byte{lp(nil, iw), lp(nil, dw), lp(tlvOf(98, []byte{0, 0, 1, 2, 3, 4}), dw), tlvOf(100, nil), lp(nil, lp(nil, dw))} {
+		out = append(out, recvCase{"nested", lp(nil, inner)})
+	}
 	// thread ids and token lengths on Data
 	for _, tid := range []uint16{0, 1, 2, 3, 255, 65535} {
 		tok := []byte{byte(tid >> 8), byte(tid), 9, 9, 9, 9}
